@@ -19,6 +19,7 @@ PIPELINES = {
           {"correct_force_slope": {"region": "baseline", "strategy": "shift"}}),
     "B2": (["compute_tip_position", "correct_tip_offset", "correct_force_slope"],
            {"correct_force_slope": {"region": "all", "strategy": "drift"}}),
+    "B0": (["compute_tip_position", "correct_tip_offset", "correct_force_slope"], {}),
     "E": ([], {}),
     # rejected requests
     "X_missing_prerequisite": (["correct_tip_offset"], {}),
@@ -26,7 +27,7 @@ PIPELINES = {
     "X_invalid_option": (["compute_tip_position", "correct_tip_offset", "correct_force_slope"],
                          {"correct_force_slope": {"region": "baseline", "strategy": "bogus"}}),
 }
-VALID = ["A", "B", "B2", "E"]
+VALID = ["A", "B", "B2", "B0", "E"]
 INVALID = ["X_missing_prerequisite", "X_unknown_step", "X_invalid_option"]
 
 
